@@ -1,5 +1,5 @@
 """Property -> rules.  Each property's check runs the listed rules; the texts go into the evidence."""
-from .rules import tab, enc, cas, dsk, wid, rel
+from .rules import tab, enc, cas, dsk, wid, rel, lay
 
 RULESETS = {}
 RULESETS.update(tab.RULES)
@@ -8,6 +8,7 @@ RULESETS.update(cas.RULES)
 RULESETS.update(dsk.RULES)
 RULESETS.update(wid.RULES)
 RULESETS.update(rel.RULES)
+RULESETS.update(lay.RULES)
 
 PROPS = {}
 
@@ -33,3 +34,8 @@ prop("C08", ["DSK-1", "DSK-2", "DSK-4", "DSK-6", "DSK-7", "DSK-12"], "x", "y")
 prop("C15", ["DSK-6", "DSK-7", "DSK-12"], "x", "y")
 prop("C12", ["WID-1", "WID-3", "WID-5", "LAY-5", "ENC-4", "TAB-3"], "x", "y")
 prop("C03", ["REL-1", "REL-3", "REL-5"], "x", "y")
+prop("C02", ["TAB-2", "LAY-1", "LAY-3", "LAY-5", "ENC-2", "ENC-3"], "x", "y")
+prop("C04", ["EXP-1", "LAY-1"], "x", "y")
+prop("C05", ["DIR-1"], "x", "y")
+prop("C19", ["INC-1"], "x", "y")
+prop("C18", ["TXT-1"], "x", "y")
